@@ -3,7 +3,9 @@
 
    Models: coq/Txn/Own.v (page-ownership state machine; its header lists what is abstracted),
    coq/Txn/Abandon.v (bodies of a write transaction, half-executed operations), coq/Txn/Poison.v (the
-   poisoned / I/O latches, failures at any position of any call, how a transaction ends).
+   poisoned / I/O latches, failures at any position of any call -- I/O errors, argument / state errors,
+   panicking predicates, CORRUPTED READS --, how a transaction ends), coq/Txn/Latched.v (the end of a
+   transaction with the storage latched inside a session of C11's Reopen/Snapshot.v).
 
    What "no trace" means here: after the end of the transaction the WHOLE model state -- allocated pages,
    durable and latest version, DATA_FREED / SYSTEM_FREED / unpersisted freed records, unpersisted pages,
@@ -18,6 +20,7 @@
    failure. *)
 From Coq Require Import List NArith PArith Bool.
 From RV Require Import Txn.PSet Txn.Own Txn.OwnP Txn.OwnThmP Txn.Abandon Txn.AbortP Txn.Poison Txn.PoisonP.
+From RV Require Import Reopen.Snapshot Reopen.SnapshotP Txn.Latched Txn.LatchedP.
 Import ListNotations.
 
 (* ---- abort(): every state satisfying the invariant, every body (tree mutations with any admissible page
@@ -64,11 +67,41 @@ Theorem c05_partial_op_poisons : forall c f p, cfail c = Some f -> fail_ok c f =
   named_site (ck c) f = true -> poisoned (exec c p) = true.
 Proof. exact partial_op_poisons. Qed.
 
-(* every call of every kind that fails after its first mutation blocks the commit (poisoned, or the
-   storage layer is latched by the I/O error) *)
-Theorem c05_failed_call_blocks : forall c f p, cfail c = Some f -> fail_ok c f = true -> mutated f = true ->
-  blocked (exec c p) = true.
+(* every call of every kind that fails after its first mutation -- by an I/O error, an argument / state error
+   or a panicking predicate -- blocks the commit (poisoned, or the storage layer is latched by the I/O error) *)
+Theorem c05_failed_call_blocks : forall c f p, cfail c = Some f -> fail_ok c f = true ->
+  is_corrupt (f_err f) = false -> mutated f = true -> blocked (exec c p) = true.
 Proof. exact failed_call_blocks. Qed.
+
+(* ... and for EVERY error kind, corrupted reads (Err(Corrupted) in the middle of a call: not an I/O error,
+   nothing is latched) included: whatever a failed call leaves of itself without having reported it as done --
+   a half-executed step, or complete steps of a call that does not work entry by entry, beyond the id-consuming
+   first step of persistent_savepoint -- blocks the commit.  Every call kind, every failure position, every
+   error kind the model allows (Poison.v `fail_ok` / `corrupt_ok`: where the reads stand relative to the
+   mutations in the code of each call kind) *)
+Theorem c05_staged_partial_blocks : forall c f p, cfail c = Some f ->
+  fail_ok c f = true -> staged_partial c f = true -> blocked (exec c p) = true.
+Proof. exact staged_partial_blocks. Qed.
+
+(* corrupted reads, full strength: after the failed call EITHER the transaction is blocked OR no step is
+   half-executed, the flags are unchanged, the working state is exactly the run of the complete micro steps
+   before the failure, and those are: none; or only the id-consuming first step (persistent_savepoint); or
+   the prefix an entry-by-entry call (retain / extract / cursor) had already reported to its caller *)
+Theorem c05_corrupt_atomic_or_blocked : forall c f p, cfail c = Some f ->
+  fail_ok c f = true -> f_err f = ECorrupt ->
+  blocked (exec c p) = true \/
+  (f_half f = None /\ Poison.own (exec c p) = run (ran c) (Poison.own p) /\
+   poisoned (exec c p) = poisoned p /\ iolatch (exec c p) = iolatch p /\
+   (per_entry (ck c) = true \/ (length (ran c) <= ratchet_prefix (ck c))%nat)).
+Proof. exact corrupt_atomic_or_blocked. Qed.
+
+(* ... for table and multimap writes, rename, delete, restore, delete_persistent_savepoint: blocked, or NOTHING
+   of the call is staged: the transaction is exactly as before the call *)
+Theorem c05_corrupt_nothing_staged_or_blocked : forall c f p,
+  per_entry (ck c) = false -> ratchet_prefix (ck c) = 0%nat -> cfail c = Some f ->
+  fail_ok c f = true -> f_err f = ECorrupt ->
+  blocked (exec c p) = true \/ exec c p = p.
+Proof. exact corrupt_nothing_staged_or_blocked. Qed.
 
 Theorem c05_poisoned_is_sticky : forall cs p, poisoned p = true -> poisoned (run_calls cs p) = true.
 Proof. exact poisoned_is_sticky. Qed.
@@ -79,12 +112,12 @@ Proof. exact blocked_is_sticky. Qed.
 (* commit() of a poisoned transaction is abort + Err(TransactionPoisoned), never Ok *)
 Theorem c05_poisoned_never_commits : forall cm p, poisoned p = true ->
   snd (commit_p cm p) <> COk /\
-  (iolatch p = false -> commit_p cm p = (mkptx (abort (own p)) true false, CPoisoned)).
+  (iolatch p = false -> commit_p cm p = (mkptx (abort (Poison.own p)) true false, CPoisoned)).
 Proof. exact poisoned_never_commits. Qed.
 
 (* Drop = abort *)
 Theorem c05_drop_is_abort : forall p, iolatch p = false ->
-  own (drop_p p) = abort (own p) /\ own (fst (abort_p p)) = abort (own p) /\ snd (abort_p p) = true.
+  Poison.own (drop_p p) = abort (Poison.own p) /\ Poison.own (fst (abort_p p)) = abort (Poison.own p) /\ snd (abort_p p) = true.
 Proof. exact drop_is_abort. Qed.
 
 (* for every sequence of calls, each complete or failed at any position (leaving the working view in an
@@ -94,9 +127,9 @@ Theorem c05_abandoned_restores : forall s cs cm, Inv s -> inw s = false -> calls
   let p := run_calls cs (start s) in
   let s' := bump (run (pin_part (ran_all cs)) s) in
   iolatch p = false ->
-  own (fst (abort_p p)) = s' /\ snd (abort_p p) = true /\
-  own (drop_p p) = s' /\
-  (poisoned p = true -> own (fst (commit_p cm p)) = s' /\ snd (commit_p cm p) = CPoisoned).
+  Poison.own (fst (abort_p p)) = s' /\ snd (abort_p p) = true /\
+  Poison.own (drop_p p) = s' /\
+  (poisoned p = true -> Poison.own (fst (commit_p cm p)) = s' /\ snd (commit_p cm p) = CPoisoned).
 Proof. exact abandoned_restores. Qed.
 
 Theorem c05_abandoned_observables : forall s cs, Inv s -> inw s = false ->
@@ -106,37 +139,119 @@ Theorem c05_abandoned_observables : forall s cs, Inv s -> inw s = false ->
   normal_w s' /\ inw s' = false /\ Inv s' /\ (lastid s' = lastid s + 1)%N /\ (lastid s < lastid s')%N.
 Proof. exact abandoned_observables. Qed.
 
-(* a half-applied operation can never be committed: once some call failed after its first mutation the
-   commit is not Ok and publishes nothing; without an I/O latch it is Err(TransactionPoisoned) and the
-   state is restored exactly *)
+(* a half-applied operation can never be committed: once some call left an unreported part of itself (any
+   call kind, any failure position, any error kind incl. corrupted reads) the commit is not Ok and publishes
+   nothing; without an I/O latch it is Err(TransactionPoisoned) and the state is restored exactly *)
 Theorem c05_half_applied_never_commits : forall s cs cm, Inv s -> inw s = false -> calls_ok cs (start s) ->
-  existsb failed_after_mutation cs = true ->
+  existsb partial_failed cs = true ->
   let p := run_calls cs (start s) in
   snd (commit_p cm p) <> COk /\
-  dur (own (fst (commit_p cm p))) = dur s /\ lat (own (fst (commit_p cm p))) = lat s /\
+  dur (Poison.own (fst (commit_p cm p))) = dur s /\ lat (Poison.own (fst (commit_p cm p))) = lat s /\
   (iolatch p = false ->
      snd (commit_p cm p) = CPoisoned /\
-     own (fst (commit_p cm p)) = bump (run (pin_part (ran_all cs)) s)).
+     Poison.own (fst (commit_p cm p)) = bump (run (pin_part (ran_all cs)) s)).
 Proof. exact half_applied_never_commits. Qed.
 
-(* PARTIAL for fault_sequences: with the storage latched by an I/O error the model only shows that
-   nothing is published (no version moves; commit / abort report the error).  That the reopen then serves
-   exactly the pre-transaction contents and reclaims the pages is NOT proved here (repair is C11/C12's
-   model); it is validated per run by the fault-point sweep of the harness. *)
-Theorem c05_latched_end_publishes_nothing_partial : forall s cs cm, Inv s -> inw s = false -> calls_ok cs (start s) ->
+(* the same for "failed after its first mutation by anything but a corrupted read" (an entry-by-entry call
+   that failed after reported entries counts here too) *)
+Theorem c05_mutated_noncorrupt_never_commits : forall s cs cm, Inv s -> inw s = false -> calls_ok cs (start s) ->
+  existsb failed_after_mutation_nc cs = true ->
+  let p := run_calls cs (start s) in
+  snd (commit_p cm p) <> COk /\
+  dur (Poison.own (fst (commit_p cm p))) = dur s /\ lat (Poison.own (fst (commit_p cm p))) = lat s /\
+  (iolatch p = false ->
+     snd (commit_p cm p) = CPoisoned /\
+     Poison.own (fst (commit_p cm p)) = bump (run (pin_part (ran_all cs)) s)).
+Proof. exact mutated_noncorrupt_never_commits. Qed.
+
+(* conversely, a transaction that is NOT blocked holds no unreported part of any failed call: what a commit
+   then publishes consists of complete, reported steps only *)
+Theorem c05_unblocked_no_half : forall cs p, calls_ok cs p -> blocked (run_calls cs p) = false ->
+  Forall (fun c => match cfail c with Some f => staged_partial c f = false | None => True end) cs.
+Proof. exact unblocked_no_half. Qed.
+
+(* fault_sequences, part 1: with the storage latched by an I/O error commit / abort report the error and no
+   version moves *)
+Theorem c05_latched_end_publishes_nothing : forall s cs cm, Inv s -> inw s = false -> calls_ok cs (start s) ->
   let p := run_calls cs (start s) in
   iolatch p = true ->
   snd (commit_p cm p) = CIoError /\ snd (abort_p p) = false /\
-  dur (own (fst (commit_p cm p))) = dur s /\ lat (own (fst (commit_p cm p))) = lat s /\
-  dur (own (fst (abort_p p))) = dur s /\ lat (own (fst (abort_p p))) = lat s /\
-  dur (own (drop_p p)) = dur s /\ lat (own (drop_p p)) = lat s.
+  dur (Poison.own (fst (commit_p cm p))) = dur s /\ lat (Poison.own (fst (commit_p cm p))) = lat s /\
+  dur (Poison.own (fst (abort_p p))) = dur s /\ lat (Poison.own (fst (abort_p p))) = lat s /\
+  dur (Poison.own (drop_p p)) = dur s /\ lat (Poison.own (drop_p p)) = lat s.
 Proof. exact latched_end_publishes_nothing. Qed.
+
+(* fault_sequences, part 2 (link to C11's recovery model, Reopen/Snapshot.v): for every session history
+   (all steps of Own.v, leaks, check_integrity, clean closes, crashes), every call sequence of a write
+   transaction begun with no other one live, every way of ending it with the storage latched: the session keeps
+   needs_repair latched and its durable image; the process that opens the file afterwards serves the data and
+   system trees of the durable version from before begin_write with its freed tables and persistent
+   savepoints, has EXACTLY the pages that image requires allocated (nothing the abandoned transaction consumed
+   stays consumed), satisfies the ownership invariant and keeps it whatever is done next.
+   By construction of the session model (Latched.v header): nothing reaches the file after the latch; what
+   an interrupted write-back leaves below page granularity is C01's subject and validated here per run. *)
+Theorem c05_latched_end_reopen_serves_pretransaction : forall h cs e, xadmissible xinit h ->
+  let x := xrun h xinit in
+  inw (Snapshot.own x) = false -> calls_ok cs (start (Snapshot.own x)) ->
+  iolatch (run_calls cs (start (Snapshot.own x))) = true ->
+  let y := reopen_after x cs e in
+  let s' := Snapshot.own y in
+  nrep (session_after x cs e) = true /\ img (session_after x cs e) = img x /\
+  y = reopened (img x) /\
+  vdata (dur s') = vdata (dur (Snapshot.own x)) /\ vsys (dur s') = vsys (dur (Snapshot.own x)) /\ lat s' = dur s' /\
+  dfreed s' = d_dfreed (img x) /\ sfreed s' = d_sfreed (img x) /\ pins s' = d_sps (img x) /\
+  ufreed s' = [] /\ unpers s' = [] /\ pend s' = [] /\
+  NoDup (alloc s') /\ (forall q, In q (alloc s') <-> In q (required (img x))) /\
+  leaked y = [] /\ nrep y = false /\
+  Inv s' /\ inw s' = false /\
+  (forall h', admissible s' h' -> Inv (run h' s') /\ incl (pinned (run h' s')) (alloc (run h' s'))).
+Proof. exact latched_end_reopen_serves_pre. Qed.
 
 (* the flag-level functions extracted for the correspondence are the flag part of `exec` / `commit_p` *)
 Theorem c05_flags_after_exec : forall c f p, cfail c = Some f ->
   (poisoned (exec c p), iolatch (exec c p)) =
-  flags_after (ck c) (mutated f) (f_err f) (f_lost f) (poisoned p) (iolatch p).
+  flags_after (ck c) (mutated f) (f_err f) (f_lost f) (f_armed f) (poisoned p) (iolatch p).
 Proof. exact flags_after_exec. Qed.
+
+(* ... and the test applied to the observed (unreported part staged?, poisoned?) of a call that failed with
+   Err(Corrupted) accepts everything the model can do *)
+Theorem c05_corrupt_outcome_sound : forall c f p, cfail c = Some f -> fail_ok c f = true -> f_err f = ECorrupt ->
+  poisoned p = false ->
+  corrupt_outcome_ok (ck c) (staged_partial c f) (poisoned (exec c p)) = true.
+Proof. exact corrupt_outcome_sound. Qed.
+
+Theorem c05_corrupt_poison_sound : forall c f p, cfail c = Some f -> fail_ok c f = true -> f_err f = ECorrupt ->
+  poisoned p = false -> corrupt_poison_ok (ck c) (poisoned (exec c p)) = true.
+Proof. exact corrupt_poison_sound. Qed.
+
+(* the code BEFORE the PartialUpdateGuard of MultimapTable (commit 90d01ff of /repo) is refuted: same call, same
+   corrupted read in the second step; the code as it is refuses the commit and restores the state, the variant
+   without the guard commits Ok a state in which a page of the committed data tree is free in the allocator
+   and a fresh page is owned by nobody *)
+Theorem c05_unguarded_multimap_refuted :
+  let s := run w_hist init in
+  Inv s /\ inw s = false /\ calls_ok w_calls (start s) /\ existsb partial_failed w_calls = true /\
+  commit_p w_commit (run_calls w_calls (start s)) = (mkptx (bump s) true false, CPoisoned) /\
+  let q := run_calls_with poisons_unguarded w_calls (start s) in
+  blocked q = false /\ snd (commit_p w_commit q) = COk /\
+  let s' := Poison.own (fst (commit_p w_commit q)) in
+  own_checkb s' = false /\
+  In 3%positive (vdata (lat s')) /\ ~ In 3%positive (alloc s') /\
+  In 4%positive (alloc s') /\ ~ In 4%positive (owned_c s').
+Proof. exact unguarded_multimap_refuted. Qed.
+
+(* the code BEFORE commit c277127 (an unwind out of an extract_if step that is not the predicate's was not
+   noticed) is refuted: the code as it is refuses the commit and restores the state; the variant commits Ok a
+   state with a page allocated and owned by nobody *)
+Theorem c05_unguarded_extract_unwind_refuted :
+  let s := run w_hist init in
+  Inv s /\ inw s = false /\ calls_ok x_calls (start s) /\ existsb partial_failed x_calls = true /\
+  commit_p w_commit (run_calls x_calls (start s)) = (mkptx (bump s) true false, CPoisoned) /\
+  let q := run_calls_with poisons_step_unwind_unguarded x_calls (start s) in
+  blocked q = false /\ snd (commit_p w_commit q) = COk /\
+  let s' := Poison.own (fst (commit_p w_commit q)) in
+  own_checkb s' = false /\ In 4%positive (alloc s') /\ ~ In 4%positive (owned_c s').
+Proof. exact unguarded_extract_unwind_refuted. Qed.
 
 Theorem c05_commit_result_spec : forall cm p, snd (commit_p cm p) = commit_result (poisoned p) (iolatch p).
 Proof. exact commit_result_spec. Qed.
@@ -200,25 +315,102 @@ Definition c05_calls : list call :=
   [ mkcall KWrite [OMutData [1;30;31]] None;
     mkcall KSavepoint [OSpCreate 40%N true; OMutSys [10;13;32]] None;
     mkcall KRetain [OMutData [1;35]]
-      (Some (mkfail 0 EPanic (Some (mkhalf [36] [31] (mkwv [1;99] [10] [6;77] [] [] (Some 1%N) [20%N]))) false));
-    mkcall KRename [OMutData [1;37]; OMutData [1;38]] (Some (mkfail 0 ELogical None false));
+      (Some (mkfail 0 EPanic (Some (mkhalf [36] [31] (mkwv [1;99] [10] [6;77] [] [] (Some 1%N) [20%N]))) false false));
+    mkcall KRename [OMutData [1;37]; OMutData [1;38]] (Some (mkfail 0 ELogical None false false));
     mkcall KWrite [OMutSys [10;39]] None ].
 
 Example c05_nonvacuous_poison :
   let s := run c05_history init in
   let p := run_calls c05_calls (start s) in
-  calls_ok c05_calls (start s) /\ existsb failed_after_mutation c05_calls = true /\
+  calls_ok c05_calls (start s) /\ existsb partial_failed c05_calls = true /\
   poisoned p = true /\ iolatch p = false /\
-  wdata (own p) = [1;99] /\ own_checkb (own p) = false /\
+  wdata (Poison.own p) = [1;99] /\ own_checkb (Poison.own p) = false /\
   commit_p (OCommitDur [1;99] [10;39] [] false true) p = (mkptx (bump s) true false, CPoisoned).
 Proof. vm_compute. repeat split; reflexivity. Qed.
 
 (* a storage error in the middle of rename_table: poisoned and latched; commit reports the I/O error *)
 Example c05_nonvacuous_latched :
   let s := run c05_history init in
-  let cs := [ mkcall KRename [OMutData [1;6;37]; OMutData [1;6;38]] (Some (mkfail 1 EIo None false)) ] in
+  let cs := [ mkcall KRename [OMutData [1;6;37]; OMutData [1;6;38]] (Some (mkfail 1 EIo None false false)) ] in
   let p := run_calls cs (start s) in
   calls_ok cs (start s) /\ poisoned p = true /\ iolatch p = true /\
   snd (commit_p (OCommitDur [1;6;37] [10;13;15] [] false true) p) = CIoError /\
-  lat (own (fst (commit_p (OCommitDur [1;6;37] [10;13;15] [] false true) p))) = lat s.
+  lat (Poison.own (fst (commit_p (OCommitDur [1;6;37] [10;13;15] [] false true) p))) = lat s.
 Proof. vm_compute. repeat split; reflexivity. Qed.
+
+(* corrupted reads: delete_persistent_savepoint fails at its parse (nothing staged: the transaction is exactly
+   as before the call and commits Ok with the other writes); a persistent_savepoint fails after storing the id
+   counter (only that step stays, not blocked); a retain fails after two reported removals (the reported prefix
+   stays, not blocked); rename fails between its two catalog updates (poisoned: the commit is refused and the
+   state restored) *)
+Definition c05_corrupt_calls_ok : list call :=
+  [ mkcall KWrite [OMutData [1;30;31]] None;
+    mkcall KSpDelete [OSpDelete 20%N; OMutSys [10;13;32]] (Some (mkfail 0 ECorrupt None false false));
+    mkcall KRetain [OMutData [1;30]; OMutData [1;35]; OMutData [1;36]] (Some (mkfail 2 ECorrupt None false false)) ].
+
+Example c05_nonvacuous_corrupt_atomic :
+  let s := run c05_history init in
+  let p := run_calls c05_corrupt_calls_ok (start s) in
+  calls_ok c05_corrupt_calls_ok (start s) /\ existsb partial_failed c05_corrupt_calls_ok = false /\
+  blocked p = false /\ wdeleted (Poison.own p) = [] /\ wdata (Poison.own p) = [1;35] /\
+  snd (commit_p (OCommitDur [1;35] [10;13;15] [] false true) p) = COk.
+Proof. vm_compute. repeat split; reflexivity. Qed.
+
+Example c05_nonvacuous_corrupt_ratchet :
+  let s := run c05_history init in
+  let c := mkcall KSavepoint [OMutSys [10;13;32]; OSpCreate 40%N true; OMutSys [10;13;33]] (Some (mkfail 1 ECorrupt None false false)) in
+  call_ok c (start s) /\ staged_partial c (mkfail 1 ECorrupt None false false) = false /\
+  blocked (exec c (start s)) = false /\ wsys (Poison.own (exec c (start s))) = [10;13;32] /\
+  wcreated (Poison.own (exec c (start s))) = [].
+Proof. vm_compute. repeat split; reflexivity. Qed.
+
+Example c05_nonvacuous_corrupt_blocked :
+  let s := run c05_history init in
+  let cs := [ mkcall KRename [OMutData [1;6;37]; OMutData [1;6;38]] (Some (mkfail 1 ECorrupt None false false)) ] in
+  let p := run_calls cs (start s) in
+  calls_ok cs (start s) /\ existsb partial_failed cs = true /\ poisoned p = true /\ iolatch p = false /\
+  commit_p (OCommitDur [1;6;37] [10;13;15] [] false true) p = (mkptx (bump s) true false, CPoisoned).
+Proof. vm_compute. repeat split; reflexivity. Qed.
+
+(* the multimap guard: a failure in the second step of MultimapTable::insert (half-executed: the subtree's old
+   page queued for freeing while the top-level entry still names it) poisons *)
+Example c05_nonvacuous_multimap_guard :
+  let s := run w_hist init in
+  let p := run_calls w_calls (start s) in
+  calls_ok w_calls (start s) /\ poisoned p = true /\ wdfr (Poison.own p) = [3] /\ wdata (Poison.own p) = [1;2;3].
+Proof. vm_compute. repeat split; reflexivity. Qed.
+
+(* the latched end inside a session: a history with a quick-repair commit and a non-durable commit, then a
+   transaction whose rename fails with an I/O error after its first catalog update: the hypotheses of
+   c05_latched_end_reopen_serves_pretransaction hold, the reopened state serves the durable version (the
+   non-durable commit is lost) *)
+Definition c05_xhist : list xop :=
+  [ XOp OBeginWrite false; XOp (OMutData [1;2;3]) false; XOp (OCommitDur [1;2;3] [10;11] [] true true) false;
+    XOp OBeginWrite false; XOp (OMutData [1;2;4]) false; XOp (OCommitNd [1;2;4] [10;11]) false ].
+Definition c05_xcalls : list call :=
+  [ mkcall KRename [OMutData [1;2;4;37]; OMutData [1;2;4;38]] (Some (mkfail 1 EIo None false false)) ].
+
+Example c05_nonvacuous_latched_reopen :
+  let x := xrun c05_xhist xinit in
+  xadmissible xinit c05_xhist /\ inw (Snapshot.own x) = false /\ calls_ok c05_xcalls (start (Snapshot.own x)) /\
+  iolatch (run_calls c05_xcalls (start (Snapshot.own x))) = true /\
+  vdata (lat (Snapshot.own x)) = [1;2;4] /\
+  vdata (dur (Snapshot.own (reopen_after x c05_xcalls TDrop))) = [1;2;3] /\
+  alloc (Snapshot.own (reopen_after x c05_xcalls TDrop)) = alloc (Snapshot.own (xrun (firstn 3 c05_xhist) xinit)).
+Proof. vm_compute. repeat split; reflexivity. Qed.
+
+(* ------------------------------------------------------------------------------------------------
+   Tie to the code (Gen/Fns.v is regenerated from transactions.rs on every run by tools/gen_fns.py; see
+   design.d/GEN.md): the free horizons of the ownership model are the expressions translated from
+   durable_commit / non_durable_commit (`oldest_live_read...().map_or(transaction_id, |x| x.next())`). *)
+From RV Require Import Gen.FnsLib Gen.Fns Gen.FnsTxnP.
+
+Theorem c05_code_durable_commit_free_until_is_model : forall dflt s,
+  Own.horizon dflt s = durable_commit_free_until (PSet.minN (Own.live_ids s)) dflt.
+Proof. exact own_horizon_is_model. Qed.
+
+Theorem c05_code_non_durable_commit_free_until_is_model : forall dflt s,
+  Own.nd_horizon dflt s
+  = non_durable_commit_free_until
+      (PSet.minN (filter (fun r => PSet.memN r (map fst (Own.pend s))) (map Own.ptxn (Own.pins s)))) dflt.
+Proof. exact own_nd_horizon_is_model. Qed.
